@@ -8,6 +8,11 @@ def main(tier):
     rep = Report('C34', tier)
     n = len(samplers.cases(tier))
     runner.run(rep, 'MonteCarloSampler.transitions::detailed-balance', M.w_balance, [(i, tier, SEED) for i in range(n)], 'onsager/cluster.py::MonteCarloSampler.transitions')
+    # site addressing used by the barrier evaluators under E1 contract (level P): index / ciR are an encode / decode pair
+    from vf.pyvc import driver
+    from contracts import clustersupercell_c as CS
+    for c in CS.CONTRACTS: driver.verify_function(c(), rep, tier)
+    for a in CS.Index.ABSTRACTED: rep.assume('ClusterSupercell.index contract, abstracted: ' + a)
     from vf import extract
     for rel, q in [('onsager/cluster.py', 'MonteCarloSampler.transitions'), ('onsager/supercell.py', 'ClusterSupercell.jumpnetworkevaluator'), ('onsager/supercell.py', 'ClusterSupercell.jumpnetworkevaluator_vacancy')]:
         try:
